@@ -262,7 +262,7 @@ def random_doc(rng, depth):
         return rng.choice(["NaN", "Infinity", "-Infinity", "AQID", "", "x", "true", "1", "héllo", UUID])
     if k in (7, 8):
         return [random_doc(rng, depth - 1) for _ in range(rng.below(4))]
-    return {rng.choice(["a", "b", "1", "true", "NaN", "1.5", UUID, ""]) + str(i if rng.chance(1, 2) else ""): random_doc(rng, depth - 1)
+    return {rng.choice(["a", "b", "1", "true", "NaN", "1.5", UUID, "", "007", "1.50", "inf", "01", "-0", "1e3", "false", "Infinity", "+1"]) + str(i if rng.chance(1, 2) else ""): random_doc(rng, depth - 1)
             for i in range(rng.below(4))}
 
 
@@ -484,6 +484,11 @@ def run(tier, seed):
         if not obs["json_stable"]["stable"]:
             out.violation("C13:doc:unstable", "document %s re-serialises as %s" % (json.dumps(d)[:80],
                                                                                   obs["json_stable"]["again"][:80]), rep)
+        sd = obs.get("self_describing") or {}
+        if sd and not (sd["any_equal"] and sd["value_equal"]):
+            out.violation("C13:doc:self-describing:%s" % ("any" if not sd["any_equal"] else "value"),
+                          "the dynamic value of %s viewed as %s is %s" % (json.dumps(d)[:80], "another dynamic value" if not sd["any_equal"] else "a generic JSON value",
+                                                                          str(sd["any_json"] if not sd["any_equal"] else sd["value_json"])[:100]), rep)
         if kind == "view":
             co = obs["coercion"]
             if not co["agree"] and "err" in co["direct"] and "ok" in co["via_any"]:
